@@ -1,5 +1,5 @@
 (* C16 - Jumbo reassembly delivers exactly the original datagram or nothing. *)
-From RS Require Import Base.Tac Base.Bytes Model.Desc Model.Input Gen.Params_gen Proofs.InputSafe.
+From RS Require Import Base.Tac Base.Bytes Model.Desc Model.Input Gen.Params_gen Proofs.InputSafe Proofs.JumboIff.
 Local Open Scope Z_scope.
 
 (* T1: an unfragmented datagram is delivered at once; whatever is being assembled is not disturbed *)
@@ -40,3 +40,38 @@ Example C16_R1_id0 :
   jumbo_run None (train 0 0 [[0;1;26;43;0;16;0;0]; [1;2;3;4;5;6;7;8]] ++ [FFrag 0 0 false [0;1;26;43;0;9;0;0;9]; FFrag 0 0 false [0;1;26;43;0;9;0;0;7]]) =
   [(6699, [1;2;3;4;5;6;7;8]); (6699, [9]); (6699, [7])].
 Proof. vm_compute. reflexivity. Qed.
+
+(* T6: the delivery condition as one equivalence, for EVERY frame sequence P read so far (from the idle state) and every next
+   frame f: f delivers x  iff  f is an unfragmented datagram whose UDP payload is x, or f is the last fragment (no more-fragments
+   flag), exactly at the fill level, of an identification whose earlier fragments form a chain in P - a first fragment at offset 0
+   (read in a state where it starts an assembly), then each next fragment exactly at the fill level, with only frames the
+   reassembler ignores in between - and x is the UDP payload of the concatenation *)
+Theorem C16_T6_delivery_iff P f x :
+  snd (jumbo_step (jafter None P) f) = Some x <->
+  (exists id d, f = FFrag id 0 false d /\ udp_out d = Some x) \/
+  (exists id acc d A C, P = A ++ C /\ startable (jafter None A) id /\ chain id acc C /\
+     f = FFrag id (blen acc) false d /\ blen acc <> 0 /\ blen acc + blen d <= 65535 /\ udp_out (acc ++ d) = Some x).
+Proof. exact (delivery_iff P f x). Qed.
+Print Assumptions C16_T6_delivery_iff.
+(* the invariant behind it: whatever was read, an assembly in progress is such a chain *)
+Theorem C16_T6_assembly_is_chain P :
+  match jafter None P with
+  | None => True
+  | Some (id, acc) => exists A C, P = A ++ C /\ chain id acc C /\ startable (jafter None A) id
+  end.
+Proof. exact (jinv_run P). Qed.
+(* non-vacuity: a two-fragment train of id 7 with an unfragmented datagram, a foreign non-first fragment and a duplicate in
+   between is a chain, and its last fragment delivers the datagram *)
+Example C16_T6_example :
+  let P := [FFrag 7 0 true [0;1;26;43;0;20;0;0]; FFrag 9 0 false [0;1;26;43;0;9;0;0;5]; FFrag 3 16 true [1;1]; FFrag 7 0 true [9;9]] in
+  chain 7 [0;1;26;43;0;20;0;0] P /\
+  snd (jumbo_step (jafter None P) (FFrag 7 8 false [1;2;3;4])) = Some (6699, [1;2;3;4]).
+Proof.
+  split; [|vm_compute; reflexivity].
+  change [FFrag 7 0 true [0;1;26;43;0;20;0;0]; FFrag 9 0 false [0;1;26;43;0;9;0;0;5]; FFrag 3 16 true [1;1]; FFrag 7 0 true [9;9]]
+    with ((([FFrag 7 0 true [0;1;26;43;0;20;0;0]] ++ [FFrag 9 0 false [0;1;26;43;0;9;0;0;5]]) ++ [FFrag 3 16 true [1;1]]) ++ [FFrag 7 0 true [9;9]]).
+  apply ch_skip; [apply ch_skip; [apply ch_skip; [apply ch_first|] |] |]; cbn [inert_for].
+  - left. split; reflexivity.
+  - right; right. split; lia.
+  - right; left. repeat split; try reflexivity. vm_compute. discriminate. intros [_ H]. discriminate.
+Qed.
